@@ -32,6 +32,11 @@ pub enum Cond {
     Equals { a: String, b: String, negate: bool },
     /// a user function in condition position
     Call { f: String, args: Vec<String> },
+    /// `not not <literal>`: the condition command invoked from inside its own evaluation
+    NotNot(String),
+    /// a script-implemented library command in condition position (`array_contains ${a<k>} <value>`: its script uses
+    /// for / if / end itself while the caller's block keyword is being evaluated)
+    Lib { arr: usize, val: String },
 }
 
 #[derive(Serialize, Deserialize, Clone, Debug, PartialEq)]
@@ -98,22 +103,30 @@ const FN_SP: [&str; 3] = ["fn", "function", "std::flowcontrol::Function"];
 const ENDFN_SP: [&str; 4] = ["end", "end_fn", "end_function", "std::flowcontrol::EndFunction"];
 const RETURN_SP: [&str; 2] = ["return", "std::flowcontrol::Return"];
 
+/// an argument as script text: a backslash in the value is written as two (C02 is not under test here, but values
+/// with backslashes travel through the condition re-parse and must arrive unchanged)
+fn rarg(a: &str) -> String {
+    render_arg(&a.replace('\\', "\\\\"))
+}
+
 pub fn render_cond(c: &Cond) -> String {
     match c {
-        Cond::Val(v) => render_arg(v),
-        Cond::NotVal(v) => format!("not {}", render_arg(v)),
-        Cond::And(vs) => vs.iter().map(|v| render_arg(v)).collect::<Vec<_>>().join(" and "),
-        Cond::Or(vs) => vs.iter().map(|v| render_arg(v)).collect::<Vec<_>>().join(" or "),
+        Cond::Val(v) => rarg(v),
+        Cond::NotVal(v) => format!("not {}", rarg(v)),
+        Cond::And(vs) => vs.iter().map(|v| rarg(v)).collect::<Vec<_>>().join(" and "),
+        Cond::Or(vs) => vs.iter().map(|v| rarg(v)).collect::<Vec<_>>().join(" or "),
         Cond::Cnd { site, negate } => format!("{}cnd {} {}", if *negate { "not " } else { "" }, site, negate),
-        Cond::Equals { a, b, negate } => format!("{}equals {} {}", if *negate { "not " } else { "" }, render_arg(a), render_arg(b)),
+        Cond::Equals { a, b, negate } => format!("{}equals {} {}", if *negate { "not " } else { "" }, rarg(a), rarg(b)),
         Cond::Call { f, args } => {
             let mut s = f.clone();
             for a in args {
                 s.push(' ');
-                s.push_str(&render_arg(a));
+                s.push_str(&rarg(a));
             }
             s
         }
+        Cond::NotNot(v) => format!("not not {}", rarg(v)),
+        Cond::Lib { arr, val } => format!("array_contains ${{a{}}} {}", arr, rarg(val)),
     }
 }
 
@@ -125,14 +138,14 @@ fn render_block(stmts: &[Stmt], indent: usize, out: &mut Vec<String>) {
                 let mut l = format!("{}emit", pad);
                 for a in args {
                     l.push(' ');
-                    l.push_str(&render_arg(a));
+                    l.push_str(&rarg(a));
                 }
                 out.push(l);
             }
-            Stmt::Set(x, v) => out.push(format!("{}{} = set {}", pad, x, render_arg(v))),
+            Stmt::Set(x, v) => out.push(format!("{}{} = set {}", pad, x, rarg(v))),
             Stmt::Fail(x, m) => match x {
-                Some(x) => out.push(format!("{}{} = hfail {}", pad, x, render_arg(m))),
-                None => out.push(format!("{}hfail {}", pad, render_arg(m))),
+                Some(x) => out.push(format!("{}{} = hfail {}", pad, x, rarg(m))),
+                None => out.push(format!("{}hfail {}", pad, rarg(m))),
             },
             Stmt::If { branches, els, sp } => {
                 for (i, (c, b)) in branches.iter().enumerate() {
@@ -158,7 +171,7 @@ fn render_block(stmts: &[Stmt], indent: usize, out: &mut Vec<String>) {
                         let mut l = format!("{}t{} = array", pad, id);
                         for v in vals {
                             l.push(' ');
-                            l.push_str(&render_arg(v));
+                            l.push_str(&rarg(v));
                         }
                         out.push(l);
                         format!("${{t{}}}", id)
@@ -177,7 +190,7 @@ fn render_block(stmts: &[Stmt], indent: usize, out: &mut Vec<String>) {
                 l.push_str(f);
                 for a in args {
                     l.push(' ');
-                    l.push_str(&render_arg(a));
+                    l.push_str(&rarg(a));
                 }
                 out.push(l);
                 if *show {
@@ -187,7 +200,7 @@ fn render_block(stmts: &[Stmt], indent: usize, out: &mut Vec<String>) {
                 }
             }
             Stmt::Return(v) => match v {
-                Some(v) => out.push(format!("{}{} {}", pad, "return", render_arg(v))),
+                Some(v) => out.push(format!("{}{} {}", pad, "return", rarg(v))),
                 None => out.push(format!("{}return", pad)),
             },
             Stmt::Raw(l) => out.push(format!("{}{}", pad, l)),
@@ -201,7 +214,7 @@ pub fn render(p: &Program) -> String {
         let mut l = format!("a{} = array", k);
         for v in a {
             l.push(' ');
-            l.push_str(&render_arg(v));
+            l.push_str(&rarg(v));
         }
         out.push(l);
     }
@@ -414,6 +427,23 @@ impl<'a> Interp<'a> {
                     }
                     None => Ok(false),
                 }
+            }
+            Cond::NotNot(v) => {
+                self.probes.push("not-not-condition");
+                Ok(truthy(v))
+            }
+            Cond::Lib { arr, val } => {
+                let name = format!("a{}", arr);
+                let fr = self.cur_ref();
+                if !fr.vars.contains_key(&name) || fr.unknown.contains(&name) {
+                    // the handle is hidden by a scoped caller: the command errors, and what an erroring condition
+                    // means is left open
+                    return Err(Stop::Inconclusive("erroring library call as a condition".to_string()));
+                }
+                self.probes.push("library-command-as-condition");
+                // the command answers with the index of the first match ("0" is a false value) or false
+                let idx = self.p.arrays.get(*arr).and_then(|a| a.iter().position(|x| x == val));
+                Ok(matches!(idx, Some(i) if i > 0))
             }
         }
     }
@@ -978,7 +1008,8 @@ impl Default for GenOpts {
 
 const XVARS: [&str; 5] = ["x0", "x1", "x2", "x3", "x4"];
 const RVARS: [&str; 3] = ["r0", "r1", "r2"];
-const VALUES: [&str; 14] = ["a", "b7", "hello", "x y", "", "0", "true", "two words", "false", "no", "NO", "yes", "1", "False"];
+// ("OR", "And", "NOT": ordinary values - the condition keywords are lower case)
+const VALUES: [&str; 19] = ["a", "b7", "hello", "x y", "", "0", "true", "two words", "false", "no", "NO", "yes", "1", "False", "OR", "And", "NOT", "a\\b", "p q\\r s\\"];
 
 struct G<'r> {
     /// "big" mode (one program in twenty): ONE dimension goes beyond the usual small pools
@@ -1093,6 +1124,8 @@ impl<'r> G<'r> {
                 let n = 2 + self.rng.usize(2);
                 Cond::Or((0..n).map(|_| self.cond_value(ctx)).collect())
             }
+            5 if self.rng.chance(1, 4) => Cond::NotNot(self.rng.pick(&["true", "false", "0", "yes", "OR", "hello", "no"]).to_string()),
+            6 if self.n_arrays > 0 && !ctx.scoped && self.opts.lib_calls && self.rng.chance(1, 3) => Cond::Lib { arr: self.rng.usize(self.n_arrays), val: self.rng.pick(&["a", "b", "c", "d d", "zz"]).to_string() },
             5 | 6 => Cond::Cnd { site: self.new_cnd(3), negate: self.rng.chance(1, 4) },
             7 | 8 => Cond::Equals { a: self.cond_value(ctx), b: self.value(), negate: self.rng.chance(1, 4) },
             _ => {
